@@ -6,7 +6,7 @@ From InvokeVerif Require Spec.C08Spec Spec.C14Spec.
 Record case := mk {
   k_pty : bool; k_in : bool; k_warn : bool; k_async : bool; k_start_fail : bool;
   k_hold_out : bool; k_hold_err : bool;
-  k_kwarg : option nat;          (* run(timeout=...) if given, in tenths of a second *)
+  k_kwarg : option (option nat); (* run(timeout=...) if given (Some None: given as None), tenths of a second *)
   k_config : option nat;         (* config.timeouts.command, in tenths of a second *)
   k_script : list ev;
   k_obs : sm_obs;
